@@ -16,7 +16,7 @@ struct CaseData
 {
   int dim; bool is_float; int n;          // n correspondences
   std::string shape, corr_kind;
-  LD spread, offset_norm, angle, tnorm, noise, scale;
+  LD spread, offset_norm, angle, tnorm, noise, scale; bool reuse_preconditioned_sets = false;
   std::vector<VecL> src_full, tgt_full;   // as generated (long double), before rounding
   std::vector<Correspondence> corr, corr_perm;
   MatL Rtrue; VecL ttrue;
@@ -46,7 +46,14 @@ static std::vector<Variant> run_library(const CaseData & cd, std::vector<VecL> &
   out.push_back({"indexed_permuted", to_ld(est.find(src, tgt, cd.corr_perm))});
   out.push_back({"aligned", to_ld(est.find(srcA, tgtA))});
   S sc = static_cast<S>(cd.scale);
-  PreconditionedPointSet<P> psrc(src, sc), ptgt(tgt, sc), psrcA(srcA, sc), ptgtA(tgtA, sc);
+  // history on the helper objects: in half of the cases the preconditioned sets are re-used objects
+  // that held another preconditioning (scale + translation from a PointSetPreconditioner) before
+  PreconditionedPointSet<P> psrc, ptgt, psrcA, ptgtA;
+  if (cd.reuse_preconditioned_sets) {
+    romea::core::PointSetPreconditioner<P> pcs(src), pct(tgt);
+    psrc.compute(src, pcs); ptgt.compute(tgt, pct); psrcA.compute(srcA, pcs); ptgtA.compute(tgtA, S(0.5) * sc, pct.getTranslation());
+  }
+  psrc.compute(src, sc); ptgt.compute(tgt, sc); psrcA.compute(srcA, sc); ptgtA.compute(tgtA, sc);
   out.push_back({"precond_indexed", to_ld(est.find(psrc, ptgt, cd.corr))});
   out.push_back({"precond_aligned", to_ld(est.find(psrcA, ptgtA))});
   return out;
@@ -118,6 +125,7 @@ static void gen_case(vh::Rng & r, CaseData & cd)
   int nz = r.range(0, 19);
   cd.noise = nz < 12 ? 0 : nz < 17 ? r.logu(1e-6, 1e-2) * cd.spread : r.logu(0.05, 0.5) * cd.spread;
   cd.scale = r.coin(0.2) ? 1.0 : r.logu(1e-3, 1e3);
+  cd.reuse_preconditioned_sets = r.coin();
   // correspondences: identity / permuted / subset with distractors
   int ck = r.range(0, 2);
   cd.corr_kind = ck == 0 ? "identity" : ck == 1 ? "permuted" : "subset";
@@ -327,6 +335,7 @@ static void one_case(vh::Ctx & c, uint64_t idx)
   c.cat("types_" + cat + "_cart+hom");
   c.cat("shape_" + cd.shape);
   c.cat("corr_" + cd.corr_kind);
+  c.cat(cd.reuse_preconditioned_sets ? "preconditioned_sets_reused" : "preconditioned_sets_fresh");
   c.cat(cd.noise == 0 ? "data_exact" : (cd.noise < 0.02 * cd.spread ? "data_small_noise" : "data_heavy_noise"));
   if (cd.angle == 0) {c.cat("angle_zero");}
   if (fabsl(cd.angle) > 3.14159) {c.cat("angle_pi");}
